@@ -40,6 +40,7 @@ class Harness(cm.BaseB):
             else:
                 for s in WELLS:
                     out.append({"k": "part", "n": n, "first": s, "wells": WELLS})
+        out.append({"k": "long"})
         if tier == "thorough":
             for s in WELLS:
                 for d in WELLS:
@@ -60,6 +61,23 @@ class Harness(cm.BaseB):
                         yield {"k": "opt", "src_trough": st, "dst_trough": dt, "mode": mode}
                         if st == dt:
                             yield {"k": "opt", "src_trough": st, "dst_trough": dt, "mode": mode, "same": True}
+            return
+        if chunk["k"] == "long":
+            # 8-12 triples: one side strictly ascending, the other a permutation family (reversed, rotated, pairs
+            # swapped, interleaved columns) - the sizes at which implementations switch algorithms
+            rows = "ABCDEFGHIJKL"
+            for n in (7, 8, 9, 12):
+                asc = [f"{rows[i]}01" for i in range(n)]
+                two = [f"{rows[i // 2]}{'01' if i % 2 == 0 else '02'}" for i in range(n)]
+                fams = {
+                    "reversed": asc[::-1], "rotated": asc[3:] + asc[:3], "swapped": [asc[i ^ 1] if (i ^ 1) < n else asc[i] for i in range(n)],
+                    "two-columns": two, "two-columns-reversed": two[::-1], "same": list(asc), "col2-reversed": [w[0] + "02" for w in asc[::-1]],
+                }
+                for name, other in fams.items():
+                    for mode in ("source", "destination"):
+                        yield {"k": "part", "s": asc, "d": other, "ties": False, "mode": mode}
+                        yield {"k": "part", "s": other, "d": asc, "ties": False, "mode": mode}
+                        yield {"k": "part", "s": asc, "d": other, "ties": True, "mode": mode, "cont": "array"}
             return
         n, W = chunk["n"], chunk["wells"]
         pairs = list(itertools.product(W, W))
